@@ -280,8 +280,10 @@ def extend_prep(rng, ref, ops, small_mantissa=True):
         vals = {v: a for v in verts}                      # all equal: scale 0
     else:
         k = rng.randrange(-2, 5)
-        spread = Fraction(2) ** k
         m = rng.choice([1, 2, 4, 8, 64])
+        if rng.random() < 0.12:      # the same function in a very large unit: a spread far below machine epsilon, still exact
+            k, a, m = -56, Fraction(0), rng.choice([1, 2, 4, 8])
+        spread = Fraction(2) ** k
         vals = {v: a + spread * Fraction(rng.randrange(0, m + 1), m) for v in verts}
         lo, hi = rng.sample(verts, 2)
         vals[lo] = a
